@@ -1,6 +1,6 @@
 (* Proofs/RetryProofs.v -- the retry loop masks transients within budget, surfaces everything else. *)
 From Coq Require Import List Bool Arith QArith Lia.
-Require Import DS.Model.Str DS.Gen.GenS3 DS.Model.Retry.
+Require Import DS.Model.Str DS.Gen.GenS3 DS.Model.Retry DS.Proofs.StrProofs.
 Import ListNotations.
 Open Scope nat_scope.
 
@@ -161,6 +161,22 @@ Proof.
   - apply retry_exhaust. exact Hl.
   - destruct e; cbn [transient_exn] in He; try reflexivity; try contradiction. symmetry. apply classify_transient_code. exact He.
 Qed.
+
+(* every answer on the independent list of definitive S3 errors is one the library classifies permanent (checked against
+   the REGENERATED table: dropping a code from PERMANENT_S3_ERROR_CODES breaks this proof) ... *)
+Lemma definitive_permanent : forall e, definitive e = true -> permanent_exn e.
+Proof.
+  intros e H. destruct e; cbn [definitive] in H; try discriminate. cbn [permanent_exn].
+  unfold definitive_codes in H. cbn [member] in H.
+  repeat (apply orb_true_iff in H; destruct H as [H|H]; [apply str_eqb_eq in H; subst; vm_compute; reflexivity|]).
+  discriminate H.
+Qed.
+
+(* ... so it surfaces with the attempt that met it: no further attempt, nothing swallowed *)
+Lemma s3_retry_definitive : forall {V} (es : list exn) (e : exn) (rest : list (V + exn)),
+  Forall transient_exn es -> length es <= gen_max_retries -> definitive e = true ->
+  with_s3_retry (map inr es ++ inr e :: rest) = (Raised e, S (length es)).
+Proof. intros V es e rest Ht Hl He. apply s3_retry_permanent; [exact Ht|exact Hl|apply definitive_permanent; exact He]. Qed.
 
 Lemma s3_retry_sleeps_bounded : forall attempts, Forall (fun x => (x <= gen_max_delay)%Q) (with_s3_retry_sleeps attempts).
 Proof. intro n. unfold with_s3_retry_sleeps. apply backoff_bounded. vm_compute. discriminate. Qed.
